@@ -323,6 +323,14 @@ func depthChecks(c *Ctx) {
 // process per type (a runtime fatal error -- e.g. concurrent map writes in state the generated
 // code keeps between calls -- kills the process and cannot be recovered).
 func stormChecks(c *Ctx, types []string) {
+	// the design-level statement: decodes of different inputs into different messages share no
+	// state (Decoders.tla; the INTERN variant must fail: selftest)
+	if res, err := RunTLC(filepath.Join(c.S.Dir, "decoderstlc"), TLCOpts{Spec: "Decoders", Cfg: "Decoders.cfg", Workers: 2, Timeout: 10 * time.Minute, Env: map[string]string{"VERIF_INTERN": "0"}}); err != nil || res.Err != "" {
+		c.R.InternalErr("Decoders.tla: %v %s", err, trunc(res.Err, 1000))
+	} else {
+		c.R.AddCount("states", res.Distinct)
+		c.R.AddCount("transitions", res.Generated)
+	}
 	n := 0
 	for _, t := range types {
 		out, err := c.S.HRun(10*time.Minute, "storm", "--type", t, "--n", fmt.Sprint(c.pick(150, 1500)), "--k", "8", "--seed", fmt.Sprint(c.Seed))
